@@ -116,6 +116,20 @@ func (d *Downstream) closeWithError(ctx context.Context, cause error) (err error
 	if beforeStatus == streamStatusDraining {
 		return errors.New("already draining")
 	}
+	// the stream ends with this call whether or not the close request can still be delivered (the transport may be
+	// the very thing that failed): it is reported closed in either case, with the error that ended it
+	defer func() {
+		if cause == nil {
+			cause = err
+		}
+		d.eventDispatcher.addHandler(func() {
+			d.Config.ClosedEventHandler.OnDownstreamClosed(&DownstreamClosedEvent{
+				Config: d.Config,
+				State:  *d.State(),
+				Err:    cause,
+			})
+		})
+	}()
 
 	if beforeStatus != streamStatusResuming {
 		select {
@@ -141,14 +155,6 @@ func (d *Downstream) closeWithError(ctx context.Context, cause error) (err error
 			ReceivedMessage: resp,
 		}
 	}
-
-	defer d.eventDispatcher.addHandler(func() {
-		d.Config.ClosedEventHandler.OnDownstreamClosed(&DownstreamClosedEvent{
-			Config: d.Config,
-			State:  *d.State(),
-			Err:    cause,
-		})
-	})
 
 	return nil
 }
